@@ -4,7 +4,8 @@ proof: lean/CashewsVerif/Props/C06.lean (lock-protocol transition system over an
        contract; the in-memory model and the ideal TTL map satisfy it).
 tie:   2-4 real tasks enter/leave guarded sections through Cache.lock, @cache.locked (coroutine and async
        generator), Memory.lock and decorators.locked(backend) on the virtual loop (timed runs, purge task off
-       and on) and under the command-level gate scheduler (sampled and exhaustively enumerated schedules,
+       and on, incl. cases built around one purge tick: expired locks in the store, an acquirer starting at the
+       instant of the tick) and under the command-level gate scheduler (sampled and exhaustively enumerated schedules,
        cancellation at suspension points).  The recorded trace of lock commands is replayed on the Lean driver;
        compared: (a) every set_lock / unlock / is_locked result and LockedError with the model over `Mem` and
        over `TtlMap`, the set of holders with their lease status after every action; (b) the property itself
@@ -34,7 +35,12 @@ TRUSTED = [
     "uuid4 as a fresh-token oracle: identifiers of different lock() calls differ and nobody else presents them "
     "(the model draws them from a counter; foreign unlocks use values from a disjoint namespace)",
     "harness: virtual clock/loop (harness/vtime.py), gate scheduler (harness/sched.py + LSched in harness/lockrun.py), "
-    "recording Memory subclass, mapping of identifiers to activation numbers",
+    "recording Memory subclass (its store reports every mutation with the task that made it: purge sweeps are whatever a task that is "
+    "neither the harness's nor a scripted one does to the store), mapping of identifiers to activation numbers, the wait-for graph "
+    "that classifies a non-terminating run as a deadlock of the generated program",
+    "the purge sweep is atomic with respect to lock commands (Model/Sweep.lean; theorem atomic_sweeps_are_purge_ops of C11): assumed by "
+    "the model's single `purge` operation; exercised by acquirers scheduled at the very instant of a purge tick "
+    "(purge_race_cases; tag sweep_split_by_lock_commands stays absent)",
     "Redis: only the contract is stated (SET NX PX + owner-checked _UNLOCK script = the TtlMap instance); "
     "no Redis server or redis-py here (C19)",
     "capacity eviction of lock keys excluded (size=1000 >> keys; C11)",
@@ -42,7 +48,8 @@ TRUSTED = [
 
 PARTIAL = ("the model cannot exhibit: a second cancellation delivered inside the `finally: unlock` (possible only on a "
            "backend whose unlock suspends; not on Memory), generators abandoned without aclose(), lock keys evicted "
-           "by capacity pressure, uuid collisions, non-dyadic ttls; more than 4 tasks / 2 keys are not sampled")
+           "by capacity pressure, uuid collisions, non-dyadic ttls; more than 4 tasks / 2 keys are not sampled; a generated program "
+           "that deadlocks (circular wait under leases that never lapse) is not judged for termination")
 
 
 # ------------------------------------------------------------------------------------------------------
@@ -65,6 +72,8 @@ class Analysis:
         self.impl_in: list[str | None] = []
         self.problems: list[dict] = []       # {"kind": "property"|"correspondence", "what": ..., "sig": ...}
         self.tags: set[str] = set()
+        self.notes: dict[int, list] = {}     # model line index -> what the purge task did to the store in that sweep
+        self.skipped: str | None = None      # "deadlock": the PROGRAM deadlocked (circular wait, leases that never lapse)
         self.build()
 
     def problem(self, kind, sig, what):
@@ -101,6 +110,39 @@ class Analysis:
                 return None
             return cur
 
+        sweep_t = cmd_t = None               # instant of the latest purge sweep / lock command
+        cmds_since_sweep = 0
+        started: set[int] = set()            # sections whose `sec_start` / `outcome` event has been seen so far
+        ended: set[int] = set()
+
+        def deadlocked() -> bool:
+            """The harness's own wait-for graph at this point of the log.  A task is *stuck* iff its innermost
+            unfinished section is a wait=True section that has not acquired, on a key whose lock is held under a
+            lease that never lapses (ttl None) by a section that is itself unfinished.  The program is deadlocked
+            iff some task is in a section and every such task is stuck: then every holder in the graph is the
+            enclosing section of a stuck task, i.e. the waits are circular and no lease will ever lapse.  C06
+            does not forbid that (locks taken in opposite order without ttl); a waiter whose key is free, expired
+            or held under a finite lease is NOT stuck - if such a run does not terminate it stays a finding."""
+            innermost: dict = {}
+            for sid, si in secinfo.items():
+                if sid in ended or sid not in started:
+                    continue
+                innermost[si["task"]] = max(innermost.get(si["task"], 0), sid)
+            if not innermost:
+                return False
+            for task, sid in innermost.items():
+                si = secinfo[sid]
+                a = by_sec.get(sid)
+                if not si["wait"] or a is None or a["acq"] is not None:
+                    return False
+                cur = lock.get(si["key"])
+                if cur is None or cur[1] is not None:
+                    return False
+                holder = acts.get(cur[0])
+                if holder is None or holder["unlocked"] or holder["sec"] in ended or holder["sec"] not in started:
+                    return False
+            return True
+
         for i, e in enumerate(ev):
             if e["t"] > now:
                 dt = e["t"] - now
@@ -108,6 +150,15 @@ class Analysis:
                 emit(f"tick {dt}", "U")
                 self.check_occupancy(bodies, acts, now)
             kind = e["ev"]
+            if kind in ("set_lock", "unlock", "probe"):
+                cmd_t = now
+                cmds_since_sweep += 1
+                if sweep_t == now:
+                    self.tags.add("lock_command_at_the_instant_of_a_sweep_after_it")
+            if kind == "sec_start":
+                started.add(e["sec"])
+            elif kind == "outcome":
+                ended.add(e["sec"])
             if kind == "set_lock":
                 ident, key = e["tok"], e["key"]
                 sec = e["sec"]
@@ -224,7 +275,16 @@ class Analysis:
                 emit(f"probe {knum(e['key'])}", "T" if e["res"] else "F")
             elif kind == "sweep":
                 emit("purge", "U")
+                self.notes[len(self.lines) - 1] = [f"{op} {k}" for op, k in e.get("did", [])]
                 self.tags.add("purge_sweep")
+                if sweep_t == now and cmds_since_sweep:
+                    self.tags.add("sweep_split_by_lock_commands")      # the purge suspended part-way and a task got in
+                if cmd_t == now:
+                    self.tags.add("sweep_at_the_instant_of_a_lock_command_after_it")
+                if any(op == "del" and lock.get(k) is not None and lock[k][1] is not None and lock[k][1] <= now
+                       for op, k in e.get("did", [])):
+                    self.tags.add("sweep_collects_expired_lock")
+                sweep_t, cmds_since_sweep = now, 0
             elif kind == "body_enter":
                 sec = e["sec"]
                 a = by_sec.get(sec)
@@ -252,10 +312,16 @@ class Analysis:
                 if e["outcome"].startswith("other:"):
                     self.problem("correspondence", "unexpected_exception", f"section raised {e['outcome'][6:]}")
             elif kind == "horizon":
-                self.problem("correspondence", "horizon", f"tasks {e['pending']} still running at the horizon")
+                if deadlocked():
+                    self.skipped = "deadlock"
+                else:
+                    self.problem("correspondence", "horizon", f"tasks {e['pending']} still running at the horizon")
         if self.info.get("livelock"):
-            self.problem("property", "livelock",
-                         f"the run does not terminate: {self.info['livelock']} (a waiting caller never acquires / never yields)")
+            if deadlocked():
+                self.skipped = "deadlock"
+            else:
+                self.problem("property", "livelock",
+                             f"the run does not terminate: {self.info['livelock']} (a waiting caller never acquires / never yields)")
         self.nacts = len(acts)
 
     @staticmethod
@@ -404,12 +470,42 @@ def gen_task(rng, nkeys, gated):
     return steps
 
 
+def hold_wait_edges(steps, held=()):
+    """(held key, the section dict that holds it without ttl, awaited key) for every wait=True section nested, at
+    any depth, inside a section on another key whose lease never lapses"""
+    for st in steps:
+        if st[0] != "lock":
+            continue
+        sec = st[1]
+        if sec["wait"]:
+            for k, outer in held:
+                if k != sec["key"]:
+                    yield k, outer, sec["key"]
+        inner = held + ((sec["key"], sec),) if sec["ttl"] is None else held
+        yield from hold_wait_edges(sec.get("body", []), inner)
+
+
+def break_cycles(case: dict) -> int:
+    """A program in which one task holds key a without ttl while waiting for b, and another holds b without ttl while
+    waiting for a, can deadlock for good - which C06 does not forbid and the check cannot judge.  Give the holder of
+    every such crossing a finite lease (the crossing then resolves by expiry: that IS interesting)."""
+    changed = 0
+    while True:
+        edges = [(ti, a, sec, b) for ti, prog in enumerate(case["tasks"]) for a, sec, b in hold_wait_edges(prog)]
+        hit = next((e2 for e1 in edges for e2 in edges if e1[0] != e2[0] and e1[1] == e2[3] and e1[3] == e2[1]), None)
+        if hit is None:
+            return changed
+        hit[2]["ttl"] = 16
+        changed += 1
+
+
 def gen_case(rng, i) -> dict:
     gated = i % 2 == 1
     ntasks = rng.choice([2, 2, 3, 3, 4])
     nkeys = rng.choice([1, 1, 2])
     case = {"mode": "gated" if gated else "timed", "cfg": CFGS[(i // 2) % len(CFGS)],
             "tasks": [gen_task(rng, nkeys, gated) for _ in range(ntasks)]}
+    break_cycles(case)
     if gated:
         sched = []
         for _ in range(rng.randrange(10, 60)):
@@ -425,6 +521,51 @@ def gen_case(rng, i) -> dict:
         case["starts"] = [rng.choice([0, 0, 0, 1, 2, 4, 8]) for _ in range(ntasks)]
         case["cancels"] = [[rng.randrange(ntasks), rng.randrange(0, 40)] for _ in range(rng.choice([0, 0, 1, 1, 2]))]
         case["horizon"] = 600
+    return case
+
+
+PURGE_CFGS = [c for c in CFGS if lockrun.CONFIGS[c]["purge"]]
+
+
+def gen_purge_race(rng, i) -> dict:
+    """Timed cases aimed at the purge tick (every 4 ticks with the purge configurations): one or two holders overstay
+    short leases, so that expired lock entries lie in the store when the tick at instant `tau` starts; an *acquirer*
+    starts exactly at `tau` (0-2 idle yields first: it runs right before the sweep, right after it, or - should a sweep
+    ever suspend between two keys - in the middle of it) and takes one of those keys under a long lease; *observers*
+    ask for the same key while the acquirer is inside (its own unlock is an observer too).  Everything else is drawn
+    freely."""
+    period = lockrun.CONFIGS[PURGE_CFGS[0]]["purge"]
+    tau = period * rng.choice([1, 1, 2, 3])
+    nkeys = rng.choice([1, 2, 2, 2])
+    tasks, starts = [], []
+    order = list(range(nkeys))
+    rng.shuffle(order)
+    for j, k in enumerate(order):                      # the overstayers, acquired in this order = store order
+        ttl = rng.choice([1, 2, 2, 4])
+        start = max(0, tau - rng.choice([1, 2, 3, 4, 4]))
+        body = [["sleep", (tau - start) + rng.choice([1, 2, 4, 6])]]
+        tasks.append([sec(k, ttl, True, body, via=rng.choice(["cm", "cm", "deco", "gen"]), end=rng.choice("nnne"))])
+        starts.append(start)
+    target = rng.choice(order)
+    pre = [["point"]] * rng.choice([0, 0, 1, 1, 2])
+    acq = sec(target, rng.choice([8, 16, None]), rng.random() < 0.6, [["sleep", rng.choice([0, 1, 2, 4])]],
+              via=rng.choice(["cm", "cm", "deco", "gen"]), ci=rng.choice([0, 1]))
+    tasks.append(pre + [acq])
+    starts.append(tau)
+    for _ in range(rng.choice([0, 1, 1, 2])):          # observers
+        st = tau + rng.choice([0, 0, 1, 1, 2])
+        prog = [["point"]] * rng.choice([0, 1, 2])
+        if rng.random() < 0.25:
+            prog.append(["probe", target])
+        prog.append(sec(rng.choice([target, target, rng.choice(order)]), rng.choice(TTLS), rng.random() < 0.4,
+                        [["sleep", rng.choice([0, 1, 2])]], via=rng.choice(["cm", "deco"]), ci=rng.choice([0, 1])))
+        tasks.append(prog)
+        starts.append(st)
+    case = {"mode": "timed", "cfg": PURGE_CFGS[i % len(PURGE_CFGS)], "tasks": tasks[:4], "starts": starts[:4],
+            "cancels": [], "horizon": 600}
+    if rng.random() < 0.15:
+        case["cancels"] = [[rng.randrange(len(case["tasks"])), tau + rng.choice([0, 1, 2, 3])]]
+    break_cycles(case)
     return case
 
 
@@ -570,8 +711,12 @@ def shrink(case: dict, want: tuple) -> dict:
 
 
 def show_trace(an: Analysis, answers) -> list[dict]:
-    return [{"line": l, "impl": o, "impl_holders": h, "driver": a}
-            for (l, o), h, a in zip(an.lines, an.impl_in, answers[1:])]
+    out = [{"line": l, "impl": o, "impl_holders": h, "driver": a}
+           for (l, o), h, a in zip(an.lines, an.impl_in, answers[1:])]
+    for i, did in an.notes.items():
+        if i < len(out):
+            out[i]["purge_task_did"] = did
+    return out
 
 
 def report(chk: Check, case: dict, origin: str, v):
@@ -627,10 +772,13 @@ def run(chk: Check) -> int:
     modes: dict[str, int] = {}
     samples = []
     exhaustive = {}
+    deadlocks = 0
 
     def account(case, an):
-        nonlocal evaluations
+        nonlocal evaluations, deadlocks
         evaluations += 1
+        if an.skipped == "deadlock":
+            deadlocks += 1
         for l, _ in an.lines:
             w = l.split()[0]
             hist[w] = hist.get(w, 0) + 1
@@ -703,6 +851,13 @@ def run(chk: Check) -> int:
         case = gen_case(chk.rng, i)
         submit(case, run_impl(case), f"gen:{i}")
     flush()
+    nrace = chk.budget(500, 5000)
+    for i in range(nrace):
+        if found >= 3:
+            break
+        case = gen_purge_race(chk.rng, i)
+        submit(case, run_impl(case), f"purge-race:{i}")
+    flush()
     if proof is not None:
         chk.proof_broken(proof, found_property)
     chk.coverage.update({
@@ -723,6 +878,14 @@ def run(chk: Check) -> int:
                            "that cannot succeed is not a choice; time passes only when no task has a useful move); "
                            "cancel_sweep_runs = one cancellation at every position x task of complete schedules of them",
         "cancel_sweep_runs": sweep,
+        "purge_race_cases": nrace,
+        "purge_race_rule": "timed cases on the purge configurations built around one purge tick: overstaying holders leave "
+                           "expired lock entries in the store, an acquirer starts at the very instant of the tick (0-2 idle "
+                           "yields first), observers ask for the same key while it is inside (gen_purge_race)",
+        "deadlock_cases_skipped": deadlocks,
+        "deadlock_rule": "a run that does not terminate because every task inside a section waits for a key held, under a "
+                         "lease that never lapses, by another such task is a deadlock of the generated PROGRAM (not forbidden "
+                         "by C06): not judged for termination; the generator gives one holder of every possible crossing a finite lease",
         "op_histogram": hist,
         "runs_per_mode_and_config": modes,
         "interesting_states_cases": tag_cases,
@@ -734,6 +897,7 @@ def run(chk: Check) -> int:
 
 
 INTERESTING = {
+    "lock_command_at_the_instant_of_a_sweep_after_it", "sweep_at_the_instant_of_a_lock_command_after_it",
     "holder_overstays_ttl", "two_bodies_overlap_one_past_lease", "acquired_over_expired_unpurged_entry",
     "late_unlock_answers_false", "late_unlock_leaves_next_holder_alone", "foreign_unlock_on_held_lock",
     "exit_cancelled", "exit_exception", "cancelled_while_waiting",
